@@ -288,6 +288,29 @@ def storeStepNormal (w : World) (toks : List String) : Option (World × String) 
         let (w', o) := w.exec (closeScript m) (fun w => { w with handle := none, scan := none, txs := [] })
         some (w', withOutcome armed o "ok")
   | ["tracedrop"] => some ({ w with trace := [] }, "ok")
+  | ["snapshot"] => some ({ w with saved := some w.disk }, "ok")
+  | ["restore"] =>
+    match w.saved with
+    | some d => some ({ w with disk := d, handle := none, scan := none, txs := [] }, "ok")
+    | none => some (w, "nosnapshot")
+  | ["damage", f, off, x] => do
+    let f ← parseFid f
+    let off ← off.toNat?
+    let x ← x.toNat?
+    match w.disk.get f with
+    | none => pure (w, "nofile")
+    | some file =>
+      let data := file.data.mapIdx (fun i b => if i = off then b ^^^ UInt8.ofNat x else b)
+      pure ({ w with disk := { w.disk with files := fset w.disk.files f { file with data := data } } }, "ok")
+  | ["truncseg", id, len] => do
+    let id ← id.toNat?
+    let len ← len.toNat?
+    match w.disk.get (.seg id) with
+    | none => pure (w, "nofile")
+    | some file =>
+      let files := (fset w.disk.files (.seg id) { file with data := file.data.take len, synced := min file.synced len }).filter
+        (fun (fx : FileId × File) => match fx.1 with | .seg j => j ≤ id | _ => true)
+      pure ({ w with disk := { w.disk with files := files } }, "ok")
   | "recfg" :: rest => (parseCfg rest).map (fun c => ({ w with cfg := c }, "ok"))
   | ["setsettings", ver, pre, n] => do
     let ver ← ver.toNat?
@@ -336,6 +359,11 @@ def storeStepNormal (w : World) (toks : List String) : Option (World × String) 
     | none => pure (w, "notx")
     | some _ =>
       pure ({ w with txs := w.txs.map (fun t => if t.id = id then { t with chunks := t.chunks ++ [c] } else t) }, "ok")
+  | ["writezeros", id, _] => do
+    let id ← id.toNat?
+    match w.txs.find? (·.id = id) with
+    | none => pure (w, "notx")
+    | some _ => pure (w, "ok")     -- content irrelevant: such a transaction is only ever abandoned
   | ["finish", id] => do
     let id ← id.toNat?
     match w.txs.find? (·.id = id), w.handle with
@@ -402,7 +430,8 @@ def storeStepNormal (w : World) (toks : List String) : Option (World × String) 
         match w.disk.get (.cas item.hash) with
         | none => pure (w, if s > min e item.size then "err invalidRange" else "err missing")
         | some f =>
-          match getRange f.data item.size [] s e with
+          -- one short-read pattern is as good as any other (C17_get_range): read it in one piece
+          match getRange f.data item.size [min e item.size - s - 1] s e with
           | .ok out => pure (w, s!"ok {toHexString out.bytes}")
           | .error _ => pure (w, "err invalidRange")
   | ["iter"] =>
@@ -501,7 +530,8 @@ def pcName : Conc.Pc → String
   | .apUnlocked .. => "apply.after_intents_unlock"
   | .ckState .. => "checkpoint.before_state" | .ckWal .. => "checkpoint.before_wal"
   | .rmScan .. => "remove.before_scan" | .rrScan .. => "remove_range.before_scan"
-  | .rdLookup .. => "read.before_lookup" | .rdOpened .. => "read.after_open"
+  | .rdLookup .. => "read.before_lookup" | .rdLookupR .. => "read.before_lookup"
+  | .rdOpened .. => "read.after_open"
   | .orIntents .. => "orphan.before_intents" | .orState .. => "orphan.before_state"
   | .orUnlink .. => "orphan.before_unlink" | .orUnlocked .. => "orphan.after_unlock"
 
@@ -528,6 +558,11 @@ def parseCOp (s : String) : Option Conc.COp :=
     let hi ← parseHi hi
     pure (.removeRange lo hi)
   | ["get", k] => (parseHex k).map .get
+  | ["grange", k, s, e] => do
+    let k ← parseHex k
+    let s ← s.toNat?
+    let e ← e.toNat?
+    pure (.getRange k s e)
   | ["ckpt"] => some .checkpoint
   | ["cleanup", hs] => (parseList parseHex hs).map .cleanup
   | _ => none
@@ -683,7 +718,7 @@ def step (st : DState) (line : String) : DState × String :=
   | ["range", c, s, e, picks] =>
     match parseHex c, s.toNat?, e.toNat?, parseList String.toNat? picks with
     | some c, some s, some e, some picks =>
-      match getRange c c.length picks s e with
+      match getRange c c.length (if picks.isEmpty then [min e c.length - s - 1] else picks) s e with
       | .ok out => (st, s!"ok {toHexString out.bytes} {out.capacity}")
       | .error _ => (st, "err invalidRange")
     | _, _, _, _ => (st, "bad-op")
